@@ -192,7 +192,7 @@ func ruleR20b(c *Ctx, r *Report) {
 		} else {
 			a := nw[0].Common().Args
 			for _, o := range origins(a[0], originOpts{}) {
-				ok := (o.Kind == "field" && o.Field != nil && o.Field.Name() == "outStream") || (o.Kind == "call" && funcIs(o.Fn, "os", "", "OpenFile"))
+				ok := (o.Kind == "field" && o.Field != nil && o.Field.Name() == "outStream") || (o.Kind == "call" && funcIs(o.Fn, "os", "", "OpenFile")) || (o.Kind == "const" && isNilConst(o.Val))
 				if !ok {
 					bad = "the CAR writer is not built over the caller's stream or the file opened from the caller's path"
 				}
